@@ -1091,6 +1091,9 @@ class Interp:
 
     def _finish_call(self, path, frame, t, res):
         if t["target"] is None:
+            if mir.is_debug_assert(t):
+                path.status, path.note = "unreachable", "debug assertion assumed to hold"
+                return []
             path.status, path.note = "diverge", mir.callee_path(t) or "fnptr"
             path.result = res
             return []
@@ -1153,7 +1156,7 @@ class Interp:
                 path.events.append(("call", fn["path"], args, t["span"], frame.body["path"], fn))
                 return self._finish_call(path, frame, t, res)
             if t["target"] is None:
-                path.status, path.note = "diverge", fn["path"]
+                path.status, path.note = ("unreachable", "debug assertion assumed to hold") if mir.is_debug_assert(t) else ("diverge", fn["path"])
                 return []
             self._push(path, body, args, t["dest"], t["target"])
             return None
